@@ -550,4 +550,170 @@ theorem replayAux_stop_ok (cfg : Cfg) (stop stop' : Nat) (fuel : Nat) : ∀ (res
               exact ih _ _ _ _ (fun p hm => hns p (Or.inr hm)) hok
             · simp only [hrc, if_false] at hok
 
+/-- header size of a decoded record -/
+def hdr : Rec → Nat
+  | .sep _ _ => 12 | .set _ _ _ => 24 | .copy _ _ _ => 28 | .write _ _ _ => 20 | .resize _ _ => 20 | .savepoint => 12 | .reset => 4
+
+theorem take_take_of_le {α : Type} (l : List α) {a b : Nat} (h : a ≤ b) : (l.take b).take a = l.take a := by
+  rw [List.take_take, Nat.min_eq_left h]
+
+/-- two logs of the same length that agree on the header of the record at the read pointer decode it alike -/
+theorem parse_congr {rest rest' : Bytes} {r : Rec} {adv : Nat} (k : Nat) (hlen : rest.length = rest'.length)
+    (hag : rest.take k = rest'.take k) (h : parse rest = some (r, adv)) (hk : hdr r ≤ k) (hk1 : 1 ≤ k) :
+    parse rest' = some (r, adv) := by
+  have hh : rest'.headD 0 = rest.headD 0 := by rw [← headD_take rest' k hk1, ← hag, headD_take rest k hk1]
+  have f1 : ∀ off w, off + w ≤ k → fld rest' off w = fld rest off w := by
+    intro off w hw; rw [← fld_take rest' off w k hw, ← hag, fld_take rest off w k hw]
+  unfold parse at h ⊢
+  simp only [sz_WBSEP, sz_WBSET, sz_WBCOPY, sz_WBWRITE, sz_WBRESIZE, sz_WBSAVEPOINT, sz_WBRESET,
+    off_WBSEP_len, w_WBSEP_len, off_WBSEP_crc, w_WBSEP_crc, off_WBSET_val, w_WBSET_val, off_WBSET_off, w_WBSET_off,
+    off_WBSET_len, w_WBSET_len, off_WBCOPY_off, w_WBCOPY_off, off_WBCOPY_len, w_WBCOPY_len, off_WBCOPY_noff, w_WBCOPY_noff,
+    off_WBWRITE_len, w_WBWRITE_len, off_WBWRITE_crc, w_WBWRITE_crc, off_WBWRITE_off, w_WBWRITE_off,
+    off_WBRESIZE_osize, w_WBRESIZE_osize, off_WBRESIZE_nsize, w_WBRESIZE_nsize] at h ⊢
+  rw [hh, ← hlen]
+  have e1 := f1 4 4; have e2 := f1 8 4; have e3 := f1 8 8; have e4 := f1 16 8; have e5 := f1 4 8
+  have e6 := f1 12 8; have e7 := f1 20 8
+  clear f1
+  unfold hdr at hk
+  split at h
+  · grind
+  · split at h
+    · grind
+    · split at h
+      · grind
+      · split at h
+        · grind
+        · grind
+
+theorem body_congr {rest rest' : Bytes} {r : Rec} {adv : Nat} (k : Nat)
+    (hag : rest.take k = rest'.take k) (h : parse rest = some (r, adv)) (hk : need r adv ≤ k) :
+    body r rest = body r rest' := by
+  have h2 : parse rest' = parse rest' := rfl
+  rw [← body_take k h hk, hag]
+  have ⟨e1, e2⟩ := parse_adv_eq h
+  cases r with
+  | sep c l =>
+    have := e1 c l rfl
+    simp only [need] at hk
+    simp only [body, sz_WBSEP]
+    exact take_drop_take _ _ _ _ (by omega)
+  | write c l o =>
+    have := e2 c l o rfl
+    simp only [need] at hk
+    simp only [body, sz_WBWRITE]
+    exact take_drop_take _ _ _ _ (by omega)
+  | _ => rfl
+
+
+theorem hdr_le_adv {rest : Bytes} {r : Rec} {adv : Nat} (h : parse rest = some (r, adv)) : hdr r ≤ adv := by
+  unfold parse at h
+  simp only [sz_WBSEP, sz_WBSET, sz_WBCOPY, sz_WBWRITE, sz_WBRESIZE, sz_WBSAVEPOINT, sz_WBRESET] at h
+  unfold hdr
+  grind
+
+theorem isEmpty_congr {rest rest' : Bytes} (h : rest.length = rest'.length) : rest'.isEmpty = rest.isEmpty := by
+  cases rest <;> cases rest' <;> simp_all
+
+/-- Replay of a log in which the bytes covered by the checksum of the separator at `p` were changed (and nothing
+before them): either the run stops at a savepoint before `p`, exactly as on the intact log, or it reaches the
+separator and fails on the checksum. -/
+theorem replayAux_corrupt (cfg : Cfg) (hcrc : cfg.crcOn = true) (stop s0 p c len : Nat) (hc : c ≠ 0) (fuel : Nat) :
+    ∀ (rest rest' : Bytes) (pos : Nat) (first : Bool) (m : Bytes),
+    rest.length = rest'.length → pos ≤ p →
+    rest.take (p + 12 - pos) = rest'.take (p + 12 - pos) →
+    (p, Rec.sep c len) ∈ walkAux fuel rest pos →
+    (∀ q c' l', (q, Rec.sep c' l') ∈ walkAux fuel rest pos → q < p → q + 12 + l' ≤ p) →
+    (∀ q, (q, Rec.savepoint) ∈ walkAux fuel rest pos → q ≠ s0) →
+    (replayAux cfg s0 fuel rest pos first m).rc = .ok →
+    cfg.crc ((rest'.drop (p - pos + 12)).take len) ≠ c →
+    (replayAux cfg stop fuel rest' pos first m).rc = .corrupted ∨
+      (stop < p ∧ (stop, Rec.savepoint) ∈ walkAux fuel rest pos ∧
+        replayAux cfg stop fuel rest' pos first m = replayAux cfg stop fuel rest pos first m) := by
+  induction fuel with
+  | zero => intro rest rest' pos first m _ _ _ hmem; simp [walkAux] at hmem
+  | succ n ih =>
+    intro rest rest' pos first m hlen hpos hag hmem hdisj hs0 hvalid hbad
+    simp only [walkAux] at hmem hdisj hs0
+    cases he : rest.isEmpty with
+    | true => simp [he] at hmem
+    | false =>
+      have he' : rest'.isEmpty = false := by rw [isEmpty_congr hlen]; exact he
+      simp only [he, Bool.false_eq_true, if_false] at hmem hdisj hs0
+      cases hp : parse rest with
+      | none => simp [hp] at hmem
+      | some ra =>
+        obtain ⟨r, adv⟩ := ra
+        simp only [hp, List.mem_cons, Prod.mk.injEq] at hmem hdisj hs0
+        have h4 := parse_adv_pos hp
+        have hk1 : 1 ≤ p + 12 - pos := by omega
+        have hh : rest'.headD 0 = rest.headD 0 := by
+          rw [← headD_take rest' _ hk1, ← hag, headD_take rest _ hk1]
+        simp only [replayAux, he, Bool.false_eq_true, if_false] at hvalid
+        cases hfc : (first && rest.headD 0 != WOP_SEP) with
+        | true => simp only [hfc, if_true] at hvalid; exact absurd hvalid (by decide)
+        | false =>
+          simp only [hfc, Bool.false_eq_true, if_false, hp] at hvalid
+          have hns0 : ¬ (r = Rec.savepoint ∧ s0 = pos) := fun ⟨h1, h2⟩ => hs0 pos (Or.inl ⟨rfl, h1.symm⟩) h2.symm
+          simp only [hns0, if_false] at hvalid
+          have hrc : (apply cfg r rest m).1 = Rc.ok := by
+            by_cases hh' : (apply cfg r rest m).1 = Rc.ok
+            · exact hh'
+            · simp only [hh', if_false] at hvalid
+          simp only [hrc, if_true] at hvalid
+          rcases hmem with ⟨h1, h2⟩ | htail
+          · -- the changed separator itself
+            subst h1; subst h2
+            have hp' : parse rest' = some (Rec.sep c len, adv) := parse_congr _ hlen hag hp (by simp [hdr]) hk1
+            left
+            simp only [replayAux, he', Bool.false_eq_true, if_false, hh, hfc, hp']
+            have hb : cfg.crc (body (Rec.sep c len) rest') ≠ c := by
+              have : p - p + 12 = 12 := by omega
+              rw [this] at hbad
+              simpa [body, sz_WBSEP] using hbad
+            have hne : (cfg.crcOn && c != 0 && cfg.crc (body (Rec.sep c len) rest') != c) = true := by
+              simp [hcrc, hc, hb]
+            simp [apply, applyB, hne]
+          · have hge := walkAux_pos_ge n _ _ _ _ htail
+            have ⟨hsepadv, _⟩ := parse_adv_eq hp
+            have hneed : need r adv ≤ p - pos := by
+              cases r with
+              | sep c' l' =>
+                have := hdisj pos c' l' (Or.inl ⟨rfl, rfl⟩) (by omega)
+                have := hsepadv c' l' rfl
+                simp only [need]; omega
+              | _ => simp only [need]; omega
+            have hna : adv ≤ need r adv := by unfold need; split <;> omega
+            have hhdr : hdr r ≤ p + 12 - pos := by
+              have := hdr_le_adv hp; omega
+            have hp' : parse rest' = some (r, adv) := parse_congr _ hlen hag hp hhdr hk1
+            have hbody : body r rest = body r rest' := body_congr _ hag hp (by omega)
+            have happ : apply cfg r rest' m = apply cfg r rest m := by unfold apply; rw [hbody]
+            have hag' : (rest.drop adv).take (p + 12 - (pos + adv)) = (rest'.drop adv).take (p + 12 - (pos + adv)) := by
+              have e1 : (rest.take (p + 12 - pos)).drop adv = (rest.drop adv).take (p + 12 - pos - adv) := List.drop_take ..
+              have e2 : (rest'.take (p + 12 - pos)).drop adv = (rest'.drop adv).take (p + 12 - pos - adv) := List.drop_take ..
+              have : p + 12 - (pos + adv) = p + 12 - pos - adv := by omega
+              rw [this, ← e1, ← e2, hag]
+            have hbad' : cfg.crc (((rest'.drop adv).drop (p - (pos + adv) + 12)).take len) ≠ c := by
+              rw [List.drop_drop]
+              have : adv + (p - (pos + adv) + 12) = p - pos + 12 := by omega
+              rw [this]; exact hbad
+            simp only [replayAux, he, he', Bool.false_eq_true, if_false, hh, hfc, hp, hp', happ, hrc, if_true]
+            by_cases hst : r = Rec.savepoint ∧ stop = pos
+            · right
+              simp only [hst, and_self, if_true]
+              refine ⟨by omega, ?_, trivial⟩
+              simp only [walkAux, he, Bool.false_eq_true, if_false, hp, List.mem_cons, Prod.mk.injEq]
+              exact Or.inl ⟨trivial, hst.1.symm⟩
+            · simp only [hst, if_false]
+              have := ih (rest.drop adv) (rest'.drop adv) (pos + adv) false (apply cfg r rest m).2
+                (by simp [hlen]) (by omega) hag' htail
+                (fun q c' l' hq hlt => hdisj q c' l' (Or.inr hq) hlt)
+                (fun q hq => hs0 q (Or.inr hq)) hvalid hbad'
+              rcases this with h | ⟨h1, h2, h3⟩
+              · left; exact h
+              · right
+                refine ⟨h1, ?_, h3⟩
+                simp only [walkAux, he, Bool.false_eq_true, if_false, hp, List.mem_cons]
+                right; exact h2
+
 end IwModel.Wal
